@@ -113,7 +113,7 @@ def _combo_job(kw):
     base = ("g4", "gL", "g1") if pol else ("F2", "FL", "F3")
     try:
         xs_op = O.fold_op(proj, R.Cell(obs=f"{kind}_{fl}", kin_y=True, **kw))
-        comps = [O.fold_op(proj, R.Cell(obs=f"{b}_{fl}", kin_y=True, **kw)) for b in base]
+        comps = [O.fold_op(proj, R.Cell(obs=f"{b}_{fl}", kin_y=False, **kw)) for b in base]  # structure functions are requested without y
     except O.FoldFailure as f:
         return ("fold", f.outcome.status, f"{f.outcome.etype} {f.outcome.msg}"[:160], f.outcome.site, f.outcome.construct)
     s = XS.syms()
